@@ -74,7 +74,7 @@ def punct(m, n, t, nw, relc, rp, same=False, **kw):
 def conds(tier):
     q = tier == "quick"
     cs = []
-    plan = [(2, 2, 6), (2, 3, 4), (3, 3, 3)] if q else [(2, 2, 6), (2, 3, 6), (3, 3, 4), (2, 4, 4), (3, 4, 3)]
+    plan = [(2, 2, 6), (2, 3, 4), (3, 3, 3)] if q else [(2, 2, 6), (2, 3, 6), (3, 3, 4), (2, 4, 4)]
     for (m, n, nw) in plan:
         ws = [P("w%d" % j, "int", 0, nw) for j in range(1, n + 1)]
         sh = ["t"]
